@@ -422,6 +422,90 @@ func nilResiduals(p *Prog) []nilUse {
 				out = append(out, nilUse{fn, in, src, fieldName(fa)})
 			}
 		}
+		// pointer fields that the module itself resets to nil (x.f = nil): a dereference of a
+		// value loaded from such a field needs a nil test
+		for _, b := range fn.Blocks {
+			for _, in := range b.Instrs {
+				fa, ok := in.(*ssa.FieldAddr)
+				if !ok {
+					continue
+				}
+				ld, ok := fa.X.(*ssa.UnOp)
+				if !ok || ld.Op != token.MUL {
+					continue
+				}
+				src, ok := ld.X.(*ssa.FieldAddr)
+				if !ok || !nilResetFields(p)[fieldName(src)] {
+					continue
+				}
+				if nilGuarded(ld, in) {
+					continue
+				}
+				// the object comes in as a parameter: accept a nil test of the field at every call
+				// site (followed through callers that merely pass their own parameter on)
+				if par, isPar := src.X.(*ssa.Parameter); isPar && par.Parent() == fn {
+					var guardedAtSites func(g *ssa.Function, par *ssa.Parameter, depth int) bool
+					guardedAtSites = func(g *ssa.Function, par *ssa.Parameter, depth int) bool {
+						if depth > 3 {
+							return false
+						}
+						idx := -1
+						for i, q := range g.Params {
+							if q == par {
+								idx = i
+							}
+						}
+						sites := 0
+						for _, e := range callersOf(p.CG(), g) {
+							if e.Site == nil {
+								continue
+							}
+							sites++
+							ci := e.Site
+							caller := e.Caller.Func
+							if idx < 0 || idx >= len(ci.Common().Args) {
+								return false
+							}
+							arg := ci.Common().Args[idx]
+							ok := false
+							for _, cb := range caller.Blocks {
+								for _, cin := range cb.Instrs {
+									u, isU := cin.(*ssa.UnOp)
+									if !isU || u.Op != token.MUL {
+										continue
+									}
+									cfa, isF := u.X.(*ssa.FieldAddr)
+									if !isF || cfa.Field != src.Field || !(cfa.X == arg || sameLoad(cfa.X, arg)) {
+										continue
+									}
+									if nilGuarded(u, ci) {
+										ok = true
+									}
+								}
+							}
+							if !ok {
+								// the caller passes on its own parameter (possibly spilled into a cell
+								// because a nested closure captures it)
+								rts := valueRoots(arg)
+								if len(rts) == 1 {
+									if ap, isP := rts[0].(*ssa.Parameter); isP && ap.Parent() == caller {
+										ok = guardedAtSites(caller, ap, depth+1)
+									}
+								}
+							}
+							if !ok {
+								return false
+							}
+						}
+						return sites > 0
+					}
+					if guardedAtSites(fn, par, 0) {
+						continue
+					}
+				}
+				out = append(out, nilUse{fn, in, "field " + fieldName(src) + " (reset to nil elsewhere)", fieldName(fa)})
+			}
+		}
 		// one level inter-procedural: an unguarded map lookup handed to a module function
 		// (or local closure) that dereferences the parameter without testing it
 		for _, b := range fn.Blocks {
@@ -1245,4 +1329,42 @@ func ruleLoopProgress(p *Prog, r *Report) {
 		}
 	}
 	r.floor("R20.6b", "back edges examined", n, 20)
+}
+
+
+var nilResetCache map[string]bool
+
+// nilResetFields: pointer-typed struct fields of module types into which some
+// module function stores the constant nil (outside composite literals).
+func nilResetFields(p *Prog) map[string]bool {
+	if nilResetCache != nil {
+		return nilResetCache
+	}
+	nilResetCache = map[string]bool{}
+	for _, fn := range allModFuncs(p) {
+		if !fileInputPkgs[pkgOfFunc(fn)] {
+			continue
+		}
+		for _, b := range fn.Blocks {
+			for _, in := range b.Instrs {
+				st, ok := in.(*ssa.Store)
+				if !ok || !isNilConst(st.Val) {
+					continue
+				}
+				fa, ok := st.Addr.(*ssa.FieldAddr)
+				if !ok {
+					continue
+				}
+				if _, isPtr := st.Val.Type().Underlying().(*types.Pointer); !isPtr {
+					continue
+				}
+				// not the initialisation of a fresh literal
+				if _, fresh := fa.X.(*ssa.Alloc); fresh {
+					continue
+				}
+				nilResetCache[fieldName(fa)] = true
+			}
+		}
+	}
+	return nilResetCache
 }
